@@ -82,7 +82,11 @@ class Axis:
             return False
 
         for neighbour in self.neighbours:
-            if neighbour.is_defined:
+            # a neighbour that got its own gradings from coincident wires holds no chops;
+            # there is nothing to copy from it (and reporting an update for it would keep
+            # the propagation loop running forever) - the direction it copied from owns the
+            # shared edge as well and is among the neighbours, too
+            if neighbour.is_defined and len(neighbour.wires.chops) > 0:
                 if neighbour.is_aligned(self):
                     for chop in neighbour.wires.chops:
                         self.wires.add_chop(chop.copy_preserving())
